@@ -42,6 +42,12 @@ fn dump() {
         show("z_slices", a, z_slices(a));
         show("z_sets", a, z_sets(a));
         show("z_chars", a, z_chars(a));
+        show("z_loops", a, z_loops(a));
+        show("z_mutation", a, z_mutation(a));
+        show("z_dispatch", a, z_dispatch(a));
+        if !cfg!(debug_assertions) {
+            show("z_wrap", a, z_wrap(a));
+        }
         // functions with overflow-prone arithmetic only on small inputs
         if a.iter().all(|x| *x < 1000) {
             show("z_option", a, z_option(a));
